@@ -17,18 +17,18 @@ inductive CertKind where | valid | wrongName | expired | selfSigned | unknownCa
 /-- the extra root handed to `ca_cert` -/
 inductive RootArg where | none | correctPem | correctDer | unrelated
   deriving DecidableEq, Repr, Inhabited
-/-- `ignore_tls_errors`: never called, called with false, called with true -/
-inductive IgnoreArg where | unset | setFalse | setTrue
+/-- the calls of `ignore_tls_errors(flag)` made on one builder, in order (none: the setter was never called) -/
+abbrev IgnoreArg := List Bool
+/-- how the target URI names the server: a DNS name or an IP literal (no block of the client looks at it) -/
+inductive HostKind where | dns | ip
   deriving DecidableEq, Repr, Inhabited
 
 /-- certificate authorities in play -/
 inductive Ca where | correct | other | unrelatedRoot | self
   deriving DecidableEq, Repr, Inhabited
 
-/-- the builder: `ignore_tls_errors` defaults to false -/
-def ignoreFlag : IgnoreArg → Bool
-  | .setTrue => true
-  | _ => false
+/-- the builder: the field starts as false and every call of the setter overwrites it -/
+def ignoreFlag (calls : IgnoreArg) : Bool := calls.foldl (fun _ flag => flag) false
 
 inductive Enc where | pem | der
   deriving DecidableEq, Repr, Inhabited
@@ -104,8 +104,9 @@ def verify (p : TlsParams) (cert : CertKind) : Bool :=
   let nameOk := cert != .wrongName
   !p.buildFails && (p.noVerifier || ((p.acceptInvalidCerts || certOk) && (p.acceptInvalidHostnames || nameOk)))
 
-/-- does the exchange go through? -/
-def accepts (c : ClientKind) (b : Backend) (ig : IgnoreArg) (root : RootArg) (cert : CertKind) : Bool :=
+/-- does the exchange go through?  (`_host`: the four backend blocks configure the same thing whether the
+    URI's host is a name or an IP literal; the certificate kinds are relative to that host) -/
+def accepts (c : ClientKind) (b : Backend) (ig : IgnoreArg) (root : RootArg) (cert : CertKind) (_host : HostKind := .dns) : Bool :=
   verify (tlsParams c b ig root) cert
 
 end Ipp
